@@ -60,6 +60,7 @@ type Act struct {
 	Name  string `json:"n"` // location or mutex
 	Write bool   `json:"w,omitempty"`
 	Pos   string `json:"p,omitempty"`
+	Shape string `json:"s,omitempty"` // "index": the write stores one element / key of the location
 }
 
 func (a Act) key() string {
@@ -135,6 +136,8 @@ type translator struct {
 	noteSet map[string]bool
 	// composite literal sites per (pkg, type): phases seen
 	litSites map[string]map[string]int
+	// request-phase calls of mutator-named methods on shared objects of unresolved type
+	opaque map[string][]string
 }
 
 func (t *translator) note(format string, a ...any) {
@@ -722,13 +725,19 @@ func (w *walker) prefixRead(e ast.Expr) []frag {
 
 var atomicWriteFn = regexp.MustCompile(`^(Add|Store|Swap|CompareAndSwap|And|Or)`)
 
-func syncMethodWrites(name string) bool {
+func syncMethodWrites(typ, name string) bool {
 	switch name {
 	case "Load", "Range", "Wait":
 		return false
+	case "Get":
+		return typ != "sync.Pool" // a Pool is written by Put and read by Get
 	}
 	return true
 }
+
+// method names that mutate their receiver by convention; called on a shared object whose
+// type the translator cannot resolve they are recorded as opaque writes (isolation only)
+var mutatorName = regexp.MustCompile(`^(Put|Store|Set|Add|Delete|Del|Push|Pop|Append|Write|WriteString|WriteByte|Reset|Swap|LoadOrStore|LoadAndDelete|CompareAndSwap|Insert|Remove|Clear|Inc|Dec|Update|Register|Record|Observe|Truncate|Grow|ReadFrom|Enqueue|Dequeue|Release|Acquire|Close)([A-Z0-9].*)?$`)
 
 func (w *walker) call(c *ast.CallExpr) []frag {
 	// builtins and conversions first
@@ -748,7 +757,11 @@ func (w *walker) call(c *ast.CallExpr) []frag {
 				if loc, ok, _ := w.locOf(c.Args[0]); ok {
 					r = w.seq(r, w.subIndexes(c.Args[0]))
 					r = w.seq(r, w.exprs(c.Args[1:]))
-					return w.seq(r, one(Act{Kind: "Acc", Name: loc, Write: true, Pos: w.pos(c)}))
+					shape := ""
+					if id.Name == "delete" {
+						shape = "index"
+					}
+					return w.seq(r, one(Act{Kind: "Acc", Name: loc, Write: true, Pos: w.pos(c), Shape: shape}))
 				}
 			}
 			return w.exprs(c.Args)
@@ -831,13 +844,26 @@ func (w *walker) call(c *ast.CallExpr) []frag {
 			// sync.Map, sync.WaitGroup, atomic.Int64 ...: internally synchronised objects
 			if loc, shared, _ := w.locOf(sel.X); shared {
 				r := w.seq(w.subIndexes(sel.X), w.exprs(c.Args))
-				wr := syncMethodWrites(m)
+				wr := syncMethodWrites(tx, m)
 				if isAtomicType(tx) {
 					wr = atomicWriteFn.MatchString(m)
 				}
-				return w.seq(r, one(Act{Kind: "AAcc", Name: loc, Write: wr, Pos: w.pos(c)}))
+				shape := ""
+				if tx == "sync.Map" && wr && m != "Clear" && m != "Range" {
+					shape = "index"
+				}
+				return w.seq(r, one(Act{Kind: "AAcc", Name: loc, Write: wr, Pos: w.pos(c), Shape: shape}))
 			}
 			return w.exprs(c.Args)
+		}
+	}
+	// a mutator-named method on a shared object of unresolved type: opaque write
+	if sel, ok := c.Fun.(*ast.SelectorExpr); ok && w.phase == "request" && mutatorName.MatchString(sel.Sel.Name) {
+		if loc, shared, ext := w.locOf(sel.X); shared && !ext {
+			tx := w.typeOf(sel.X)
+			if !strings.HasPrefix(tx, "struct:") && !isSyncObj(tx) {
+				w.t.opaque[loc] = append(w.t.opaque[loc], w.name+" "+w.pos(c)+" ."+sel.Sel.Name)
+			}
 		}
 	}
 	// ordinary call: the function value, then the arguments
@@ -1026,7 +1052,19 @@ func (w *walker) target(e ast.Expr, alsoRead bool) []frag {
 	if alsoRead {
 		r = w.seq(r, one(Act{Kind: "Acc", Name: loc, Pos: w.pos(e)}))
 	}
-	return w.seq(r, one(Act{Kind: "Acc", Name: loc, Write: true, Pos: w.pos(e)}))
+	shape := ""
+	pe := e
+	for {
+		if p, ok := pe.(*ast.ParenExpr); ok {
+			pe = p.X
+			continue
+		}
+		break
+	}
+	if _, ok := pe.(*ast.IndexExpr); ok {
+		shape = "index"
+	}
+	return w.seq(r, one(Act{Kind: "Acc", Name: loc, Write: true, Pos: w.pos(e), Shape: shape}))
 }
 
 func (w *walker) block(stmts []ast.Stmt) []frag {
@@ -1584,11 +1622,12 @@ func main() {
 	repo := flag.String("repo", "/repo", "goa source tree")
 	gen := flag.String("gen", "", "directory holding generated designs (<gen>/<design>/gen/...)")
 	phases := flag.String("phases", "", "phases.json")
+	writesTbl := flag.String("writes", "", "shared_writes.json (allow-list of request-phase shared writes)")
 	outV := flag.String("out", "", "Generated_footprint.v to write")
 	outJ := flag.String("json", "", "diagnostic JSON to write")
 	flag.Parse()
 
-	t := &translator{noteSet: map[string]bool{}, litSites: map[string]map[string]int{}}
+	t := &translator{noteSet: map[string]bool{}, litSites: map[string]map[string]int{}, opaque: map[string][]string{}}
 	b, err := os.ReadFile(*phases)
 	if err != nil {
 		fatal("%v", err)
@@ -1721,6 +1760,9 @@ func main() {
 	}
 	count(t.bodies)
 	count(t.setupBs)
+	for l := range t.opaque {
+		locSet[l] = true
+	}
 	var locs, mus []string
 	for l := range locSet {
 		locs = append(locs, l)
@@ -1736,6 +1778,109 @@ func main() {
 	}
 	for i, m := range mus {
 		muID[m] = i + 1
+	}
+
+	// ---- isolation discipline: every request-phase shared write must be classified
+	var wt struct {
+		Locations map[string]struct {
+			Class string `json:"class"`
+			Why   string `json:"why"`
+		} `json:"locations"`
+		Patterns []struct {
+			Regex string `json:"regex"`
+			Class string `json:"class"`
+			Why   string `json:"why"`
+		} `json:"patterns"`
+	}
+	if *writesTbl != "" {
+		wb, err := os.ReadFile(*writesTbl)
+		if err != nil {
+			fatal("%v", err)
+		}
+		if err := json.Unmarshal(wb, &wt); err != nil {
+			fatal("shared_writes.json: %v", err)
+		}
+	}
+	type isoViol struct {
+		Location string   `json:"location"`
+		Why      string   `json:"why"`
+		Writes   []string `json:"writes"`
+	}
+	writesAt := map[string][]string{}
+	nonIndex := map[string]bool{}
+	for _, b := range t.bodies {
+		for _, p := range b.Paths {
+			for _, a := range p {
+				if (a.Kind == "Acc" || a.Kind == "AAcc") && a.Write {
+					d := fmt.Sprintf("%s %s %s", b.Name, a.Pos, a.Kind)
+					if !has(writesAt[a.Name], d) {
+						writesAt[a.Name] = append(writesAt[a.Name], d)
+					}
+					if a.Shape != "index" {
+						nonIndex[a.Name] = true
+					}
+				}
+			}
+		}
+	}
+	for l, sites := range t.opaque {
+		for _, s := range sites {
+			writesAt[l] = append(writesAt[l], s+" (opaque)")
+		}
+		nonIndex[l] = true
+	}
+	classCoq := map[string]string{"memo": "WMemo", "monotone": "WMonotone", "private": "WPrivate"}
+	var isoV []isoViol
+	classesUsed := map[string]any{}
+	var classLines []string
+	var wlocs []string
+	for l := range writesAt {
+		wlocs = append(wlocs, l)
+	}
+	sort.Strings(wlocs)
+	for _, l := range wlocs {
+		e, ok := wt.Locations[l]
+		if !ok {
+			for _, pt := range wt.Patterns {
+				if regexp.MustCompile(pt.Regex).MatchString(l) {
+					e.Class, e.Why, ok = pt.Class, pt.Why, true
+					break
+				}
+			}
+		}
+		switch {
+		case !ok:
+			isoV = append(isoV, isoViol{l, "request-phase code writes this shared location and shared_writes.json does not classify it (state written by one request can reach another)", writesAt[l]})
+		case classCoq[e.Class] == "":
+			fatal("shared_writes.json: %s has unknown class %q", l, e.Class)
+		case e.Class == "memo" && nonIndex[l]:
+			isoV = append(isoV, isoViol{l, "classified as a memo table but written other than by storing one key (cache[k] := v)", writesAt[l]})
+		default:
+			classesUsed[l] = map[string]any{"class": e.Class, "why": e.Why, "writes": writesAt[l]}
+			classLines = append(classLines, fmt.Sprintf("  (%d, %s) (* %s *)", locID[l], classCoq[e.Class], safeComment(l)))
+		}
+	}
+	var staleAllow []string
+	for l := range wt.Locations {
+		if _, ok := writesAt[l]; !ok {
+			staleAllow = append(staleAllow, l)
+		}
+	}
+	sort.Strings(staleAllow)
+	if isoV == nil {
+		isoV = []isoViol{}
+	}
+	if staleAllow == nil {
+		staleAllow = []string{}
+	}
+	var opaqueIDs []string
+	var olocs []string
+	for l := range t.opaque {
+		olocs = append(olocs, l)
+	}
+	sort.Strings(olocs)
+	for _, l := range olocs {
+		opaqueIDs = append(opaqueIDs, fmt.Sprint(locID[l]))
 	}
 
 	viol, locked, unbalanced := discipline(t.bodies)
@@ -1795,6 +1940,15 @@ func main() {
 	}
 	nPaths, nDistinct := emit("fp_bodies", t.bodies)
 	nSetupPaths, nSetupDistinct := emit("fp_setup_bodies", t.setupBs)
+	// Coq list items separated by ";" — comments must stay inside the item
+	for i := range classLines {
+		if i < len(classLines)-1 {
+			k := strings.Index(classLines[i], ") (*")
+			classLines[i] = classLines[i][:k+1] + ";" + classLines[i][k+1:]
+		}
+	}
+	fmt.Fprintf(&v, "(* request-phase shared writes classified by translate/c20/shared_writes.json *)\nDefinition fp_write_classes : list (nat * wclass) := [\n%s\n].\n\n", strings.Join(classLines, "\n"))
+	fmt.Fprintf(&v, "(* shared objects of unresolved type on which request-phase code calls a mutator-named method *)\nDefinition fp_opaque_writes : list nat := [%s].\n", strings.Join(opaqueIDs, "; "))
 	if err := os.WriteFile(*outV, []byte(v.String()), 0o644); err != nil {
 		fatal("%v", err)
 	}
@@ -1811,6 +1965,10 @@ func main() {
 		"notes": t.notes, "violations": viol, "locked_locations": locked, "unbalanced_paths": unbalanced,
 		"violations_if_setup_ran_concurrently": violAll,
 		"request_scoped_types":                 scoped,
+		"isolation_violations":                 isoV,
+		"shared_writes_classified":             classesUsed,
+		"shared_writes_stale_entries":          staleAllow,
+		"opaque_writes":                        t.opaque,
 		"setup_table_used":                     usedSetup,
 		"stats": map[string]int{"request_bodies": len(t.bodies), "setup_bodies": len(t.setupBs), "paths": nPaths,
 			"distinct_nonempty_paths": nDistinct, "setup_paths": nSetupPaths, "setup_distinct_nonempty_paths": nSetupDistinct,
